@@ -40,8 +40,64 @@ def plans(tier):
     ]
 
 
+def burst_stage(tier):
+    """ReceiverSet.tla's "all sends, then selects" behaviours at sizes gated schedules cannot carry (they reach the code's real
+    capacities: 10 events per wait, hundreds of results per call), free-running, on the three builds."""
+    import json
+    from vlib import build_harness, run_harness, write_replay, log
+    shapes = [(12, 40), (9, 30), (20, 26), (3, 200), (11, 1), (30, 12), (64, 5)]
+    if tier != "quick":
+        shapes += [(m, k) for m in (8, 10, 16, 40, 64) for k in (1, 7, 33, 64, 90)]
+    cases = []
+    for m, k in shapes:
+        for close in (False, True):
+            cases.append({"id": len(cases) + 1, "members": m, "msgs": k, "close": close, "len": 16 if (m + k) % 2 else 100})
+    violations = []
+    for variant in (("os",) if tier == "quick" else ("os", "memfd", "inprocess")):
+        build_harness(variant)
+        todo = list(cases)
+        nbad = 0
+        while todo and nbad < 4:
+            p = run_harness(variant, ["setburst"], stdin="\n".join(json.dumps(c) for c in todo) + "\n", timeout=900)
+            outs, last = {}, None
+            for line in p.stdout.splitlines():
+                if line.startswith("{"):
+                    o = json.loads(line)
+                    if "begin" in o:
+                        last = o["begin"]
+                    else:
+                        outs[o["id"]] = o
+            done = 0
+            for c in todo:
+                o = outs.get(c["id"])
+                if o is None:
+                    if c["id"] == last:
+                        o = {"ok": False, "why": "the process died (rc=%s): %s" % (p.returncode, (p.stderr or "")[-300:])}
+                        done += 1
+                    else:
+                        break
+                else:
+                    done += 1
+                if not o.get("ok"):
+                    nbad += 1
+                    violations.append({"what": "receiver set burst [%s] %d members x %d messages%s: %s" % (
+                        variant, c["members"], c["msgs"], ", senders dropped" if c["close"] else "", o.get("why")),
+                        "key": "burst:" + str(o.get("why"))[:50],
+                        "replay": write_replay("C06", "burst-%s-%d" % (variant, c["id"]), {"property": "C06", "kind": "burst",
+                                               "variant": variant, "case": c, "observed": o})})
+            if done == 0:
+                break
+            todo = todo[done:]
+        log("  bursts [%s]: %d shapes, %d bad" % (variant, len(cases), nbad))
+    return violations, len(cases)
+
+
 def run(tier):
     res = setcheck.campaign("C06", plans(tier))
+    bv, bn = burst_stage(tier)
+    res["violations"] += bv
+    res["coverage"]["evaluations"] = res["coverage"].get("evaluations", 0) + bn
+    res["coverage"]["burst_shapes_free_running"] = bn
     res["assumptions"] = ["premise K10 (edge-triggered epoll: arrivals/hang-ups re-arm; registration reports existing "
                           "readiness; ready list in arming order - a different order only makes a schedule 'unmatched')",
                           "model exhaustive for <=4 members x <=2 messages x Cap in {1,2}; the code's capacity (10) is used "
@@ -52,4 +108,15 @@ def run(tier):
 
 
 def replay(rp):
+    if rp.get("kind") == "burst":
+        import json
+        from vlib import build_harness, run_harness
+        build_harness(rp["variant"])
+        p = run_harness(rp["variant"], ["setburst"], stdin=json.dumps(rp["case"]) + "\n", timeout=120)
+        print(p.stdout[-1500:], p.stderr[-500:])
+        if '"ok":true' in p.stdout:
+            print("case passes now")
+            return 0
+        print("VIOLATION property=C06 replay=(this file)")
+        return 1
     return setcheck.replay_one(rp)
